@@ -47,6 +47,8 @@ ASSUMPTIONS = [
 
 def generate(seed, index, tier):
     rng = scenarios.derive_rng(seed, ID, index)
+    if index % 8 == 7:
+        return _gen_sqlfile(rng)
     simple = rng.random() < 0.6
     for attempt in range(30):
         if simple:
@@ -107,6 +109,81 @@ def generate(seed, index, tier):
     return scn
 
 
+def _gen_sqlfile(rng):
+    """An evolution shipped as database-specific raw SQL files
+    (evolutions/<alias>_<label>.sql): each database must execute its own
+    file (or the python module when it has none), never the other one's."""
+    intf = lambda n: {'name': n, 'kind': 'Integer', 'attrs': {'null': True}}
+    models = [{'name': 'Item', 'fields': [intf('a')], 'meta': {}},
+              {'name': 'Item2', 'fields': [intf('a')], 'meta': {}}]
+    side = {'Item': 'default', 'Item2': 'other'}
+    if rng.random() < 0.5:
+        side = {'Item': 'other', 'Item2': 'default'}
+    tbl = {side['Item']: 'va_item', side['Item2']: 'va_item2'}
+    have = rng.choice([['default', 'other'], ['default'], ['other']])
+    files = {a: 'CREATE INDEX "mk_%s" ON "%s" ("a");\n' % (a, tbl[a])
+             for a in have}
+    project = {'apps': {'va': {'v0': models, 'steps': [
+        {'evos': [{'label': 'e1', 'mutations': [], 'sql_files': files}]}]}},
+        'order': ['va'], 'databases': ['default', 'other'],
+        'router': {'va.%s' % k.lower(): v for k, v in side.items()}}
+    return {'kind': 'sqlfile', 'project': project, 'side': side,
+            'have': have, 'simple': True, 'rows': {},
+            'order': rng.choice([['default', 'other'], ['other', 'default']])}
+
+
+def _exec_sqlfile(scn):
+    P = scn['project']
+    sts = proj.states(P)
+    stats, viols = {'sql_file_scenarios': 1}, []
+    detail = dict(kind='sqlfile', have=scn['have'], order=scn['order'],
+                  side=scn['side'])
+    res = {'violations': viols, 'stats': stats, 'nontrivial': True,
+           'shape': spec.canon(['sqlfile', scn['have'], scn['order'],
+                                sorted(scn['side'].items())]), 'runs': 0}
+    aliases = ['default', 'other']
+    with runner.Workspace(databases=aliases) as ws:
+        proj.deploy(ws, P, 0, sts)
+        for alias in aliases:
+            r0 = ws.run('evolve', {'execute': True, 'database': alias})
+            if r0.status != 'ok':
+                raise runner.HarnessError('sqlfile install failed: %s' % (
+                    (r0.exit or {}).get('msg'),))
+        proj.deploy(ws, P, 1, sts)
+        prev = {a: snapshot.snapshot(ws, a) for a in aliases}
+        for alias in scn['order']:
+            other = 'other' if alias == 'default' else 'default'
+            r = ws.run('evolve', {'execute': True, 'database': alias})
+            sa = snapshot.snapshot(ws, alias)
+            so = snapshot.snapshot(ws, other)
+            if r.status != 'ok':
+                viols.append(violation(
+                    'C16.run_failed_on_foreign_mutation', alias=alias,
+                    status=r.status,
+                    msg=((r.exit or {}).get('msg') or '')[:300], **detail))
+                break
+            marks = sorted(n for (typ, n, tb, sql) in sa['master']
+                           if typ == 'index' and n.startswith('mk_'))
+            want = ['mk_' + alias] if alias in scn['have'] else []
+            if marks != want:
+                viols.append(violation('C16.wrong_sql_file_executed',
+                                       alias=alias, indexes=marks,
+                                       expected=want, **detail))
+            d = common.state_equal(prev[other], so)
+            if d:
+                viols.append(violation('C16.other_db_modified',
+                                       evolved=alias, when='run',
+                                       diffs=d[:4], **detail))
+            if alias in scn['have'] and \
+                    ('va', 'e1') not in common.labels_of(sa):
+                viols.append(violation('C16.label_not_recorded',
+                                       alias=alias, **detail))
+            prev[alias], prev[other] = sa, so
+        res['runs'] = ws.nruns
+    res['sample'] = dict(detail)
+    return res
+
+
 def tables_by_side(state, side):
     out = {'default': set(), 'other': set()}
     for m in state['apps']['va']['models']:
@@ -115,6 +192,8 @@ def tables_by_side(state, side):
 
 
 def execute(scn):
+    if scn.get('kind') == 'sqlfile':
+        return _exec_sqlfile(scn)
     P = scn['project']
     sts = proj.states(P)
     side = scn['side']
@@ -262,6 +341,8 @@ def execute(scn):
 
 
 def shrinks(scn):
+    if scn.get('kind') == 'sqlfile':
+        return
     if scn.get('fault'):
         c = copy.deepcopy(scn)
         c.pop('fault')
